@@ -794,8 +794,9 @@ class Program:
         import inline
         census = inline.load_census()
         loaded = [(u, json.load(open(os.path.join(factdir, u["json"])))) for u in manifest["units"]]
-        taken = inline._addr_taken([fd for _, d in loaded for fd in d["functions"]])
         self.inlined = []
+        inline.alias_renamed([fd for _, d in loaded for fd in d["functions"]], self.rel, census, inline.load_signatures(), self.inlined)
+        taken = inline._addr_taken([fd for _, d in loaded for fd in d["functions"]])
         gone = inline.inline_program([d["functions"] for _, d in loaded], census, taken, self.inlined)
         for u, d in loaded:
             if gone:
